@@ -70,8 +70,9 @@ Fixpoint to_ftree (c : content) (t : option Z) {struct c} : ftree :=
             match l with [] => [] | x :: xs => to_ftree x None :: all xs end) cs)
   | Record cs ks n =>
       (* tuple: fill(x) for x in layout.contents;  keyed: fill(layout[k]) = contents range-sliced to the length *)
+      (* RecordArray::getitem_range_nowrap(0, k) is the array itself when k = length: the fields stay whole *)
       let t' := match ks with
-                | None => t
+                | None => match t with Some k => if k =? n then None else Some k | None => None end
                 | Some _ => Some (match t with None => n | Some k => k end)
                 end in
       TRecord ((fix all (l : list content) : list ftree :=
